@@ -166,6 +166,7 @@ class Func:
     def newstr(self, d):              self.st("newstr", d=d)
     def fstore(self, p, f, x):        self.st("fstore", p=p, f=f, a=x)
     def fload(self, d, p, f):         self.st("fload", d=d, p=p, f=f)
+    def stlit(self, d, f, x):         self.st("stlit", d=d, f=f, a=x)     # d = box{f: x} (whole-value assignment)
     def store(self, p, x):            self.st("store", p=p, a=x)
     def load(self, d, p):             self.st("load", d=d, p=p)
     def addr(self, d, x):
@@ -534,6 +535,10 @@ class Prog:
                 f.ntmp += 1; t = "%%f%d" % f.ntmp
                 code.append(I("faddr", d=t, a=[p], s=s["f"]))
                 code.append(I("store", a=[t, a]))
+            elif k == "stlit":
+                a = self._use(f, code, s["a"]); d, post = self._def(f, code, s["d"])
+                self._line("%s%s = box{%s: %s}" % (tab, s["d"], s["f"], s["a"]))
+                code.append(I("mkstruct", d=d, a=[a], ds=["box", s["f"]])); post()
             elif k == "fload":
                 p = self._ptr(f, code, s["p"]); d, post = self._def(f, code, s["d"])
                 self._line("%s%s = %s.%s" % (tab, s["d"], s["p"], s["f"]))
